@@ -125,17 +125,10 @@ def run(out: Outcome, drv):
             if a["holds"]:
                 continue
             base = obs[variants.index(("nd_f8", "dt64ns", "list"))]
-            junk_obs = None
             for v, o, ok in zip(variants, obs, a["conform"]):
                 if ok and o.get("flags") == base.get("flags") and "error" not in o:
                     continue
                 kid = None
-                if v[0] == "ma_junk":
-                    # known finding F-11 iff the code evaluated the raw data under the mask
-                    if junk_obs is None:
-                        junk_obs = sut.observe(junk_substituted(case), "nd_f8", v[1], v[2])
-                    if "flags" in o and o.get("flags") == junk_obs.get("flags"):
-                        kid = "F-11"
                 out.violation(f"{WHAT}: {fn} through carrier {v}: {o.get('flags', o)} vs {base.get('flags', base)} (float64 array)",
                               {"fn": fn, "case": jsonable(case), "carriers": list(v), "observed": o, "baseline": base,
                                "model": a["model"], "python": fx.repro_line(case, v)}, known_id=kid)
